@@ -38,6 +38,44 @@ Proof.
   exact (sink_ok_complete _ _ Hg).
 Qed.
 
+(** no element-text sink lets a raw carriage return (or a raw less-than sign) reach the
+    template parser: libxml2's blank-text heuristic cannot fire at any of them *)
+Definition cr_escaped (k : sink) : bool :=
+  match sk_ctx k, sk_esc k with
+  | Text, EscSaxWith _ _ _ r => r
+  | Text, EscNone => false
+  | _, _ => true
+  end.
+
+Lemma all_text_sinks_escape_cr : forallb (fun k => memN (sk_id k) known_failing || cr_escaped k) sinks = true.
+Proof. vm_compute. reflexivity. Qed.
+
+Lemma plain_no_raw s : plain s = true -> no_ws_ctl s = true -> no_cr_lt s = true.
+Proof.
+  unfold plain, no_ws_ctl, no_cr_lt. rewrite !forallb_forall. intros Hp Hw c Hc.
+  specialize (Hp c Hc). specialize (Hw c Hc). apply negb_true_iff in Hp. apply negb_true_iff in Hw.
+  unfold is_meta in Hp. apply orb_false_iff in Hp as [Hp _]. apply orb_false_iff in Hp as [Hp _].
+  apply orb_false_iff in Hp as [_ El]. apply orb_false_iff in Hw as [_ Ecr].
+  rewrite El, Ecr. reflexivity.
+Qed.
+
+Lemma text_sinks_heuristic_off : forall k, In k sinks -> memN (sk_id k) known_failing = false ->
+  sk_ctx k = Text ->
+  forall s, (sk_esc k = NotText -> plain s = true /\ no_ws_ctl s = true) ->
+  no_cr_lt (apply_esc (sk_esc k) s) = true
+  /\ lex_text (apply_esc (sk_esc k) s) = lex_text_conf (apply_esc (sk_esc k) s).
+Proof.
+  intros k Hin Hk Hc s Hp.
+  pose proof (proj1 (forallb_forall _ _) all_text_sinks_escape_cr k Hin) as H.
+  cbv beta in H. rewrite Hk in H. cbn [orb] in H. unfold cr_escaped in H. rewrite Hc in H.
+  assert (N : no_cr_lt (apply_esc (sk_esc k) s) = true).
+  { destruct (sk_esc k) as [|q t l r|]; cbn [apply_esc].
+    - discriminate H.
+    - subst r. apply escaped_cr_no_raw.
+    - destruct (Hp eq_refl) as [Hpl Hw]. apply plain_no_raw; auto. }
+  split; [exact N|apply lex_text_conf_eq, N].
+Qed.
+
 (** ids are the positions in the list (so that the meta file and the list agree) *)
 Fixpoint ids_from (n : N) (l : list sink) : bool :=
   match l with [] => true | k :: r => N.eqb (sk_id k) n && ids_from (N.succ n) r end.
